@@ -106,7 +106,7 @@ def calculate_thermo_cont(
     """
     params = _ThermoParams(
         default_sigma_r=species.sn,
-        T=float(temp.to("K")) if isinstance(temp, Temperature) else temp,
+        T=float(temp.to("K")) if isinstance(temp, Temperature) else float(temp),
         **kwargs,
     )
 
@@ -436,7 +436,9 @@ def _grimme_s_vib(
         ) / SIConstants.h**2
         s_r = SIConstants.k_b * (0.5 + np.log(np.sqrt(factor)))
 
-        w = _grimme_w(omega_0=w0, freq=freq, alpha=alpha)
+        w = _grimme_w(
+            omega_0=w0, freq=float(freq.to("cm-1")), alpha=alpha
+        )
 
         s += w * s_v + (1.0 - w) * s_r
 
